@@ -195,6 +195,10 @@ func (c *codecVolatile) DecodeTo(d *binary.Decoder, rv reflect.Value) (err error
 			return nil
 		}
 
+		if len(v) < 16 {
+			return errInvalidValue
+		}
+
 		out.data[binary.ToString(&k)] = decodeValue(binary.ToString(&v))
 	}
 
